@@ -74,7 +74,7 @@ func writeEvidence(f *commonFlags, tot *Stats, wall float64, reported, known []s
 			for _, a := range tot.APICovered {
 				covered[a] = true
 			}
-			var missing []string
+			missing := []string{}
 			n := 0
 			for _, e := range inv.Exported {
 				short := strings.TrimPrefix(e, "github.com/trajectoryjp/spatial_id_go/v4/")
